@@ -303,3 +303,23 @@ Proof.
   - eexists; vm_compute; reflexivity.
   - apply FU_leaf; [exact I|]. intros n H. vm_compute in H. discriminate H.
 Qed.
+
+(* history-independence of the predicted errors.  The model's operations are functions of (environment, schema, value):
+   nothing is remembered between calls, so in the list of predictions of a case the answer to a call depends on that call
+   alone - not on the calls (and rejections) before it, not on how often it is repeated.  The c17 runner evaluates every
+   call of a case twice on ONE schema instance in ONE process and each observation must equal this prediction (seeded
+   change C17-r2m4: a shared error value extended in place - the second rejection carries the first one's path too). *)
+From Verif Require Import Interp.Sexp Interp.RunSchema.
+
+Theorem C17_prediction_history_independent : forall e s before op after,
+  nth (List.length before) (map (run_op e s) (before ++ op :: after)) (Ls []) = run_op e s op.
+Proof.
+  intros e s before op after. rewrite map_app. rewrite app_nth2; rewrite map_length; [|apply le_n].
+  rewrite PeanoNat.Nat.sub_diag. reflexivity.
+Qed.
+Print Assumptions C17_prediction_history_independent.
+
+(* the same call three times in a row: the second answer is the answer *)
+Example C17_history_instance : forall op,
+  nth 1 (map (run_op c17_env c17_unit_key_schema) [op; op; op]) (Ls []) = run_op c17_env c17_unit_key_schema op.
+Proof. intro op. exact (C17_prediction_history_independent c17_env c17_unit_key_schema [op] op [op]). Qed.
